@@ -170,7 +170,11 @@ func stuckNow(names ...string) []string {
 		}
 		for _, n := range names {
 			if strings.HasPrefix(t.Name, n) {
-				r = append(r, fmt.Sprintf("%s@%s[%s]", strings.TrimRight(t.Name, "0123456789"), t.What, t.Obj))
+				obj := t.Obj
+				if i := strings.IndexByte(obj, '#'); i >= 0 {
+					obj = obj[:i] // per-execution object numbers are not part of a stable signature
+				}
+				r = append(r, fmt.Sprintf("%s@%s[%s]", strings.TrimRight(t.Name, "0123456789"), t.What, obj))
 			}
 		}
 	}
